@@ -114,6 +114,11 @@ def _optimize(
                             progress_bar,
                         )
                     )
+
+            # Raise if exception occurred in executing the remaining futures. (The executor has
+            # been shut down here, i.e., all of them are done.)
+            for f in futures:
+                f.result()
     finally:
         study._thread_local.in_optimize_loop = False
         progress_bar.close()
